@@ -116,10 +116,21 @@ def gen_kernel(rng, kid):
             ptrs = 1 if rng.random() < 0.25 else 0
             arr, n = rarrays(rng, False)
             defs.append(("T=%s.%d.%s" % (base, ptrs, arr), flat * n, isp or ptrs > 0 or arr != ""))
+    if rng.random() < 0.6:
+        # aimed at isCyclic: a struct whose flattened fields are a block of 2-3 distinct element types repeated 1-3 times,
+        # with (half of the time) one entry of a later repetition changed at position 0 or later
+        blk = rng.sample(["float", "int", "double", "char", "short", "bool"], rng.choice([2, 2, 3]))
+        reps = rng.choice([1, 2, 2, 3]) if len(blk) == 2 else rng.choice([1, 2, 2])
+        fl = blk * reps
+        if reps > 1 and rng.random() < 0.5:
+            c = rng.randrange(1, reps)
+            j = rng.randrange(1, len(blk)) if rng.random() < 0.7 else 0
+            fl[c * len(blk) + j] = other_elem(rng, fl[c * len(blk) + j])
+        defs.append(("S=" + ",".join("%s~p:%s:0:0~" % ("xyzwuvst"[j], e) for j, e in enumerate(fl)), fl, False))
     params = []
     sig = []
     for i in range(rng.choice([0, 1, 1, 2, 2, 3, 3, 4, 5])):
-        if defs and rng.random() < 0.4:
+        if defs and rng.random() < 0.5:
             k = rng.randrange(len(defs))
             t, flat, isp = "t:%d" % (k + 1), defs[k][1], defs[k][2]
         else:
@@ -140,32 +151,124 @@ def gen_kernel(rng, kid):
     return spec, sig
 
 
+ELEMS = ["float", "int", "double", "char", "long", "short", "bool"]
+
+
+def other_elem(rng, e):
+    return rng.choice([x for x in ELEMS if x != e])
+
+
+def struct_spec(flat):
+    return "S:" + "+".join(flat)
+
+
+def flat_of_mem(spec):
+    if spec.startswith("S:"):
+        out = []
+        for b in spec[2:].split("+"):
+            out += flat_of_builtin(b)
+        return out
+    if spec.startswith("T:"):
+        _, b, n = spec.split(":")
+        return flat_of_builtin(b) * int(n)
+    return flat_of_builtin(spec)
+
+
+def divisors(n):
+    return [d for d in range(1, n) if n % d == 0]
+
+
 def mem_for(rng, flat):
-    """a memory dtype aimed at the parameter's flattened element list: equal, a divisor, a multiple, near misses"""
-    x = rng.random()
+    """A memory dtype aimed at the case split of canBeCastedTo / isCyclic against the parameter's flattened element
+    list F (n entries): equal; k repetitions of F (exact, or with one entry of a LATER cycle changed at position 0 / at a
+    position >= 1, or with an entry of the first cycle changed); a block F[:d] for d | n (a positive case when F is
+    d-periodic, the negative case `later cycle of the parameter differs` otherwise), such a block with one entry changed;
+    lengths that do not divide; the wildcard byte; unrelated builtins."""
     if not flat or "none" in flat:
         return rng.choice(MEM_BUILTINS)
+    n = len(flat)
     uniform = len(set(flat)) == 1
-    if x < 0.25 and uniform:
-        return flat[0] if flat[0] != "bool" or True else "bool"
-    if x < 0.4 and uniform and flat[0] in ("float", "double", "int", "long", "char", "short"):
-        n = rng.choice([2, 3, 4])
+    x = rng.random()
+    if x < 0.12:
+        if uniform and rng.random() < 0.6:
+            return flat[0] if n == 1 else "T:%s:%d" % (flat[0], n)
+        return struct_spec(flat)                                            # equal lists
+    if x < 0.2 and uniform and flat[0] in ("float", "double", "int", "long", "char", "short"):
+        k = rng.choice([2, 3, 4])
         vec = {"float": "float", "double": "double", "int": rng.choice(["int", "uint"]), "long": rng.choice(["long", "ulong"]),
                "char": rng.choice(["char", "uchar"]), "short": rng.choice(["short", "ushort"])}[flat[0]]
-        return "%s%d" % (vec, n)
-    if x < 0.5 and uniform:
-        return "T:%s:%d" % (flat[0], rng.choice([len(flat), len(flat) * 2, max(1, len(flat) - 1), len(flat) + 1, 1]))
-    if x < 0.65 and len(flat) <= 6:
-        return "S:" + "+".join(flat)                      # exactly the parameter's elements
-    if x < 0.72 and len(flat) <= 3:
-        return "S:" + "+".join(flat * 2)                  # two repetitions
-    if x < 0.78 and len(flat) <= 6:
+        return "%s%d" % (vec, k)                                            # builtin vector of the element type
+    if x < 0.27 and uniform:
+        return "T:%s:%d" % (flat[0], rng.choice([n * 2, n * 3, max(1, n - 1), n + 1, 1]))
+    if x < 0.52 and n * 2 <= 12:
+        # the memory is longer: k cycles of F
+        k = rng.choice([2, 2, 3]) if n * 3 <= 12 else 2
+        f2 = list(flat) * k
+        y = rng.random()
+        if y < 0.3:
+            pass                                                            # exact multiple: accepted
+        elif y < 0.6 and n >= 2:
+            c, j = rng.randrange(1, k), rng.randrange(1, n)                 # later cycle, position >= 1
+            f2[c * n + j] = other_elem(rng, f2[c * n + j])
+        elif y < 0.8:
+            c = rng.randrange(1, k)                                         # later cycle, position 0
+            f2[c * n] = other_elem(rng, f2[c * n])
+        else:
+            j = rng.randrange(n)                                            # first cycle (the compared prefix)
+            f2[j] = other_elem(rng, f2[j])
+        return struct_spec(f2)
+    if x < 0.74 and n >= 2:
+        # the memory is shorter: a block of d | n entries of F
+        # prefer block lengths d >= 2 at which the FIRST entries of F's cycles agree: the cyclic test then has to
+        # look at the positions >= 1 of the later cycles
+        cands = [q for q in divisors(n) if q >= 2 and all(flat[c * q] == flat[0] for c in range(n // q))]
+        d = rng.choice(cands) if (cands and rng.random() < 0.6) else rng.choice(divisors(n))
+        j0 = rng.choice([0, 0, d * rng.randrange(n // d)])                  # the first block, or a later one
+        blk = list(flat[j0:j0 + d])
+        y = rng.random()
+        if y < 0.7:
+            pass                          # accepted iff F is d-periodic; else a later cycle of F differs
+        else:
+            j = rng.randrange(d)
+            blk[j] = other_elem(rng, blk[j])
+        if d == 1 and rng.random() < 0.5:
+            return blk[0]
+        return struct_spec(blk)
+    if x < 0.8:
         f2 = list(flat)
-        f2[rng.randrange(len(f2))] = rng.choice(["int", "float", "double", "char"])
-        return "S:" + "+".join(f2)                        # one element changed (or not)
-    if x < 0.84:
+        f2[rng.randrange(n)] = rng.choice(ELEMS)                            # same length, one entry changed (or not)
+        return struct_spec(f2) if n <= 12 else "byte"
+    if x < 0.86:
+        f2 = (list(flat) + list(flat[:rng.randint(1, max(1, n - 1))]))[:12] if rng.random() < 0.5 else list(flat[:-1]) or ["float"]
+        return struct_spec(f2)                                              # lengths that do not divide
+    if x < 0.91:
         return "byte"
     return rng.choice(MEM_BUILTINS)
+
+
+def cast_class(m, p):
+    """which branch of canBeCastedTo / isCyclic (= which case of the proof of cast_iff_rule) a (memory, parameter) pair of
+    flattened lists exercises"""
+    if m == ["byte"] or p == ["byte"]:
+        return "byte"
+    if len(m) == len(p):
+        return "equal" if m == p else "same-length-differ"
+    d = "mem-shorter:" if len(m) < len(p) else "mem-longer:"
+    short, long_ = (m, p) if len(m) < len(p) else (p, m)
+    n = len(short)
+    if n == 0:
+        return d + "empty"
+    if len(long_) % n:
+        return d + "not-a-multiple"
+    cyc0 = all(long_[c * n] == long_[0] for c in range(len(long_) // n))
+    cyc = all(long_[i] == long_[i % n] for i in range(len(long_)))
+    if not cyc0:
+        return d + "cycle-broken-at-0"
+    if not cyc:
+        return d + "cycle-broken-after-0"
+    if long_[:n] != short:
+        return d + "cyclic-but-prefix-differs"
+    return d + "repeats"
 
 
 def gen_call(rng, sig):
@@ -208,6 +311,20 @@ FIXED = [
     "m:double,m:double2,m:S:double+long+long,d m:double,m:double,m:S:double+long,d m:float,m:double,m:byte,d "
     "d,m:double,m:byte,d m:double,m:double,m:S:double+long+long+double+long+long,m:double",
     "K9005/0//n.p:int:0:0.1.;n.p:int:0:0.0. m:float,i i,i m:int,i",
+    # the case split of isCyclic: parameter {float,int,float,double} / {float,int,float,int} / {float,int}[3] against
+    # blocks, repetitions and repetitions with a late mismatch
+    "K9006/1/S=x~p:float:0:0~,y~p:int:0:0~,z~p:float:0:0~,w~p:double:0:0~;S=x~p:float:0:0~,y~p:int:0:0~,z~p:float:0:0~,w~p:int:0:0~;"
+    "S=x~p:float:0:0~,y~p:int:0:0~/n.t:1.1.;n.t:2.1.;c.t:3.0.3 "
+    "m:S:float+int,m:S:float+int,m:S:float+int m:S:float+int+float+double,m:S:float+int+float+int,m:S:float+int+float+int+float+int "
+    "m:float,m:S:float+double,m:S:float+int+float+double m:S:float+int+float+double+float+int+float+double,m:S:float+int+float+int+float+int+float+double,m:S:float+int+float+int "
+    "m:S:float+int+float+double+float+int+float+int,m:S:float+int+float+int+float+int+float+int,m:S:float+int+float+int+float+int+float+int+float+int+float+int "
+    "m:S:float+int+float+double+double+int+float+double,m:S:int+int,m:S:float+int+float+int+float+int+float+int+float+int+float+double "
+    "m:S:float+int+float,m:S:float+int+float,m:S:float+int+float+int+float m:byte,m:S:float+int+double+int,m:S:float+int+float+double+float+int",
+    "K9007/1/S=x~p:char:0:0~,y~p:short:0:0~,z~p:double:0:0~/n.t:1.0.2;n.t:1.0.2x2;c.t:1.1. "
+    "m:S:char+short+double,m:S:char+short+double,m:S:char+short+double+char+short+double "
+    "m:S:char+short+double+char+short+float,m:S:char+short+double+char+double+double,m:S:char+short+double+short+short+double "
+    "m:S:char+short,m:S:char+short+double+char+short+double,m:S:char+short+double+char+short+double+char+short+double "
+    "m:S:char+short+double+char+short+double+char+short+double+char+short+double,m:S:char+short+double+char+short+double+char+short+double+char+short+int,m:char",
 ]
 
 
@@ -268,10 +385,16 @@ def run(run, tier, seed, replay_case=None):
     nk = 24 if tier == "quick" else 400
     ncalls = 60 if tier == "quick" else 120
     cases = list(C.load_corpus(PROP)) + list(FIXED)
+    classes = {}
     for k in range(nk):
         spec, sig = gen_kernel(rng, k + 1)
         calls = [gen_call(rng, sig) for _ in range(ncalls)]
         cases.append(spec + " " + " ".join(calls))
+        for call in calls:
+            for i, a in enumerate(call.split(",")):
+                if a.startswith("m:") and i < len(sig) and sig[i][0]:
+                    cl = cast_class(flat_of_mem(a[2:]), sig[i][1])
+                    classes[cl] = classes.get(cl, 0) + 1
     if replay_case is not None:
         cases = [replay_case]
 
@@ -315,9 +438,14 @@ def run(run, tier, seed, replay_case=None):
                    "const, pointers, fixed arrays incl. [] and [0], typedef chains, typedef'd structs; 8% built with "
                    "type_validation:false), each JIT-compiled once on a Serial device; per kernel 60 (quick) / 120 argument "
                    "lists aimed at each parameter's flattened element list (equal, divisor, multiple, one element changed, "
-                   "byte, null, scalar, wrong count), each run in the building process and in a fresh process loading the "
+                   "byte, null, scalar, wrong count; memory dtypes cover every branch of canBeCastedTo/isCyclic: k cycles "
+                   "with a mismatch at position 0 / at a position >= 1 of a later cycle / in the compared prefix, blocks of "
+                   "d | n entries of periodic and nearly periodic parameters, see cast_case_split), each run in the building process and in a fresh process loading the "
                    "kernel from the cache; non-trivial = a call that passes at least one typed memory; distinct = distinct "
                    "(signature, argument list)")
+    # which branch of canBeCastedTo / isCyclic (= case of the proof of cast_iff_rule) the generated (memory dtype, pointer
+    # parameter) pairs exercise; the fixed batch (K9006, K9007) contains every class by construction
+    cov["cast_case_split"] = dict(sorted(classes.items()))
     cov["kernels_built"] = len(sigs)
     cov["calls_required_ok"] = accepted
     cov["calls_required_err"] = sum(l.count("E") for l in S)
